@@ -65,8 +65,12 @@ type ProbeRec struct {
 	Decor int
 	Str   string
 	W     int
-	Need  int // width this decorator needs by itself
 	Seq   int64
+	// state handed to the decorator and what its innermost part formatted
+	Completed   bool
+	Aborted     bool
+	InnerCalled bool   // the innermost decorator was reached (no wrapper substituted a message)
+	Text        string // text the innermost decorator formatted (when reached)
 }
 
 type Hang struct {
@@ -439,10 +443,18 @@ func (p probe) Unwrap() decor.Decorator { return p.Decorator }
 
 func (p probe) Decor(s decor.Statistics) (string, int) {
 	cyc := p.r.cycle.Load()
+	n0 := p.in.calls.Load()
 	str, w := p.Decorator.Decor(s)
+	rec := ProbeRec{Cycle: cyc, Bar: p.bar, Decor: p.di, Str: str, W: w, Seq: p.r.seq.Add(1), Completed: s.Completed, Aborted: s.Aborted}
+	if p.in.calls.Load() > n0 {
+		rec.InnerCalled = true
+		if n := len(p.spec.Texts); n > 0 {
+			rec.Text = p.spec.Texts[int(n0)%n]
+		}
+	}
 	p.r.mu.Lock()
 	if len(p.r.tr.Probes) < 200000 {
-		p.r.tr.Probes = append(p.r.tr.Probes, ProbeRec{Cycle: cyc, Bar: p.bar, Decor: p.di, Str: str, W: w, Seq: p.r.seq.Add(1)})
+		p.r.tr.Probes = append(p.r.tr.Probes, rec)
 	}
 	p.r.mu.Unlock()
 	return str, w
